@@ -148,8 +148,8 @@ Section Proofs.
   (* the groups are the accepted blocks, re-ordered at will *)
   Hypothesis grouping_keeps : forall l x, count_pair x (concat (grouping l)) = count_pair x l.
   Variable kind_of : nat -> qkind.
-  Notation step := (step nseg true true batching grouping kind_of).
-  Notation run := (run nseg true true batching grouping kind_of).
+  Notation step := (step nseg true true true batching grouping kind_of).
+  Notation run := (run nseg true true true batching grouping kind_of).
 
   Lemma upds_same f s x : upds f s x s = x.
   Proof. unfold upds. now rewrite Nat.eqb_refl. Qed.
@@ -190,7 +190,7 @@ Section Proofs.
 
   Definition snapU (f : nat -> seg) := filter (fun s => in_unrot (f s)) (seq 0 nseg).
   Definition snapR (f : nat -> seg) := filter (fun s => in_rot (f s)) (seq 0 nseg).
-  Definition resolve (r : nat) := resolve_kind true true batching grouping (kind_of r).
+  Definition resolve (r : nat) := resolve_kind true true true batching grouping (kind_of r).
 
   (* a finished reader never changes again *)
   Lemma done_stays evs : forall y r, stage (rds y r) = RDone -> rds (run y evs) r = rds y r.
@@ -369,17 +369,45 @@ Section Proofs.
     destruct (mem s L && Nat.ltb b (nb (f s)))%bool; reflexivity.
   Qed.
 
-  (* THE SEARCHER REFINES ITS SPECIFICATION: with snapshots that list a segment at most once each, the
-     record route (any batching, any grouping) and the statistics route return every block as often as
-     "read every unrotated request, and every rotated request whose key is not an unrotated one" *)
-  Lemma count_resolve_spec r f U Rr x : kind_of r <> QGroupBy -> NoDup U -> NoDup Rr ->
+  Lemma mem_app s L1 L2 : mem s (L1 ++ L2) = (mem s L1 || mem s L2)%bool.
+  Proof. induction L1 as [|x L1 IH]; cbn [app mem]; [reflexivity|]. rewrite IH, Bool.orb_assoc. reflexivity. Qed.
+
+  (* the segment keys walked by the group-by route: every key of the list once *)
+  Lemma keys_once_mem : forall l seen s, mem s (keys_once seen l) = (mem s l && negb (mem s seen))%bool.
+  Proof.
+    induction l as [|a l IH]; intros seen s; cbn [keys_once mem]; [reflexivity|].
+    destruct (mem a seen) eqn:Ea.
+    - rewrite IH. destruct (Nat.eqb_spec a s) as [->|]; cbn [orb]; [rewrite Ea; cbn; apply Bool.andb_false_r|reflexivity].
+    - cbn [mem]. rewrite IH. cbn [mem]. destruct (Nat.eqb_spec a s) as [->|]; cbn [orb negb andb].
+      + rewrite Ea. reflexivity.
+      + reflexivity.
+  Qed.
+
+  Lemma keys_once_NoDup : forall l seen, NoDup (keys_once seen l).
+  Proof.
+    induction l as [|a l IH]; intros seen; cbn [keys_once]; [constructor|].
+    destruct (mem a seen) eqn:Ea; [apply IH|]. constructor; [|apply IH].
+    intro H. apply mem_In in H. rewrite keys_once_mem in H. cbn [mem] in H. rewrite Nat.eqb_refl in H.
+    cbn in H. rewrite Bool.andb_false_r in H. discriminate.
+  Qed.
+
+  (* EVERY ROUTE REFINES THE SPECIFICATION: with snapshots that list a segment at most once each, the
+     record route (any batching, any grouping), the statistics route and the group-by route return every
+     block as often as "read every unrotated request, and every rotated request whose key is not an
+     unrotated one" *)
+  Lemma count_resolve_spec r f U Rr x : NoDup U -> NoDup Rr ->
     count_pair x (resolve r f U Rr) = count_pair x (resolve_records_spec f U Rr).
   Proof.
-    intros Hk HU HR. unfold resolve, resolve_kind. destruct (kind_of r); [|reflexivity|congruence].
-    unfold resolve_records. rewrite (searcher_answer_count _ _ batching_covers grouping_keeps).
-    destruct x as [s b]. unfold raw_blocks, resolve_records_spec.
-    rewrite bmem_app, count_app, !bmem_flat, !count_flat, mem_filter_not by (try apply NoDup_filter; assumption).
-    destruct (mem s U), (mem s Rr), (Nat.ltb b (nb (f s))); reflexivity.
+    intros HU HR. unfold resolve, resolve_kind. destruct (kind_of r); [|reflexivity|].
+    - unfold resolve_records. rewrite (searcher_answer_count _ _ batching_covers grouping_keeps).
+      destruct x as [s b]. unfold raw_blocks, resolve_records_spec.
+      rewrite bmem_app, count_app, !bmem_flat, !count_flat, mem_filter_not by (try apply NoDup_filter; assumption).
+      destruct (mem s U), (mem s Rr), (Nat.ltb b (nb (f s))); reflexivity.
+    - destruct x as [s b]. unfold resolve_groupby, resolve_records_spec.
+      rewrite count_app, !count_flat, mem_filter_not, keys_once_mem, mem_app
+        by (first [apply keys_once_NoDup | apply NoDup_filter; assumption | assumption]).
+      cbn [mem negb]. rewrite Bool.andb_true_r.
+      destruct (mem s U), (mem s Rr), (Nat.ltb b (nb (f s))); reflexivity.
   Qed.
 
   Lemma NoDup_snapU f : NoDup (snapU f).
@@ -388,11 +416,11 @@ Section Proofs.
   Proof. apply NoDup_filter, seq_NoDup. Qed.
 
   (* the counting core: snapshots taken at f1 <= f2, read at f3 >= f2 *)
-  Lemma count_resolve r f1 f2 f3 s b : kind_of r <> QGroupBy ->
+  Lemma count_resolve r f1 f2 f3 s b :
     sle f1 f2 -> sle f2 f3 -> s < nseg -> ph (f1 s) <> Absent -> b < nb (f1 s) ->
     count_pair (s, b) (resolve r f3 (snapU f1) (snapR f2)) = 1.
   Proof.
-    intros Hk L12 L23 Hs Hph Hb. rewrite count_resolve_spec by (auto using NoDup_snapU, NoDup_snapR).
+    intros L12 L23 Hs Hph Hb. rewrite count_resolve_spec by (auto using NoDup_snapU, NoDup_snapR).
     unfold resolve_records_spec.
     rewrite count_app.
     rewrite !count_flat by (try apply NoDup_filter; unfold snapU, snapR; try apply NoDup_filter; apply seq_NoDup).
@@ -416,7 +444,6 @@ Section Proofs.
 
   (* MAIN THEOREM *)
   Theorem handover_exactly_once pre post r s b :
-    kind_of r <> QGroupBy ->
     let y1 := run sys_init pre in
     stage (rds y1 r) = RIdle ->
     s < nseg -> ph (segs y1 s) <> Absent -> b < nb (segs y1 s) ->
@@ -424,7 +451,7 @@ Section Proofs.
     stage (rds y r) = RDone ->
     count_pair (s, b) (result (rds y r)) = 1.
   Proof.
-    cbv zeta. intros Hk Hidle Hs Hph Hb Hd.
+    cbv zeta. intros Hidle Hs Hph Hb Hd.
     set (y1 := run sys_init pre) in *.
     unfold Handover.run in Hd |- *. cbn [fold_left] in Hd |- *. fold (run (step y1 (SnapU r)) post) in Hd |- *.
     destruct (first_step y1 r Hidle) as (S1 & S2 & S3).
@@ -437,14 +464,13 @@ Section Proofs.
 
   (* nothing is returned twice, whatever was flushed when *)
   Theorem handover_at_most_once pre post r x :
-    kind_of r <> QGroupBy ->
     let y1 := run sys_init pre in
     stage (rds y1 r) = RIdle ->
     let y := run y1 (SnapU r :: post) in
     stage (rds y r) = RDone ->
     count_pair x (result (rds y r)) <= 1.
   Proof.
-    cbv zeta. intros Hk Hidle Hd. destruct x as [s b].
+    cbv zeta. intros Hidle Hd. destruct x as [s b].
     set (y1 := run sys_init pre) in *.
     unfold Handover.run in Hd |- *. cbn [fold_left] in Hd |- *. fold (run (step y1 (SnapU r)) post) in Hd |- *.
     destruct (first_step y1 r Hidle) as (S1 & S2 & S3).
@@ -459,75 +485,21 @@ Section Proofs.
     destruct (mem s (snapU (segs y1))), (mem s (snapR f2)), (Nat.ltb b (nb (f3 s))); cbn; lia.
   Qed.
 
-  (* ---------- the group-by route: correct only while no hand-over step falls into the query ---------- *)
-  Definition is_handover_ev (e : ev) : bool := match e with AddRot _ | DelUnrot _ => true | _ => false end.
-
-  Lemma quiet_phase evs : forall y s, forallb (fun e => negb (is_handover_ev e)) evs = true ->
-    ph (segs y s) <> Absent -> ph (segs (run y evs) s) = ph (segs y s).
-  Proof.
-    induction evs as [|e evs IH]; intros y s Hq Hp; [reflexivity|].
-    cbn [forallb] in Hq. apply Bool.andb_true_iff in Hq as [He Hq].
-    unfold Handover.run. cbn [fold_left]. fold (run (step y e) evs).
-    assert (E : ph (segs (step y e) s) = ph (segs y s)).
-    { destruct e as [t|t| |t|t|q|q|q]; cbn in He; try discriminate; cbn [Handover.step]; try reflexivity.
-      1-2: destruct (ph (segs y t)) eqn:P; cbn [segs]; try reflexivity;
-           destruct (Nat.eq_dec s t) as [->|Hn]; [rewrite upds_same; cbn; congruence|rewrite upds_other by exact Hn; reflexivity].
-      all: destruct (stage (rds y q)); reflexivity. }
-    rewrite IH; [exact E|exact Hq|rewrite E; exact Hp].
-  Qed.
-
-  Lemma rank_inj p q : rank p = rank q -> p = q.
-  Proof. destruct p, q; cbn; intros H; try reflexivity; discriminate. Qed.
-
-  Theorem groupby_exactly_once_guarded pre post r s b :
-    kind_of r = QGroupBy ->
-    let y1 := run sys_init pre in
-    stage (rds y1 r) = RIdle ->
-    s < nseg -> ph (segs y1 s) <> Absent -> b < nb (segs y1 s) ->
-    (* the guard: the segment is not inside its hand-over window when the query begins, and no hand-over
-       step happens while the query runs (flushes, new segments and other queries may) *)
-    ph (segs y1 s) <> Both -> forallb (fun e => negb (is_handover_ev e)) post = true ->
-    let y := run y1 (SnapU r :: post) in
-    stage (rds y r) = RDone ->
-    count_pair (s, b) (result (rds y r)) = 1.
-  Proof.
-    cbv zeta. intros Hk Hidle Hs Hph Hb Hnb Hq Hd.
-    set (y1 := run sys_init pre) in *.
-    unfold Handover.run in Hd |- *. cbn [fold_left] in Hd |- *. fold (run (step y1 (SnapU r)) post) in Hd |- *.
-    destruct (first_step y1 r Hidle) as (S1 & S2 & S3).
-    set (y' := step y1 (SnapU r)) in *.
-    destruct (after_snapU post y' r (snapU (segs y1)) (segs y1) S1 S2) as (f2 & f3 & A & B & B' & C).
-    { rewrite S3. apply sle_refl. }
-    { exact Hd. }
-    assert (Pf : ph (segs (run y' post) s) = ph (segs y1 s)).
-    { rewrite quiet_phase; [rewrite S3; reflexivity|exact Hq|rewrite S3; exact Hph]. }
-    destruct (A s) as [A1 A2]. destruct (B s) as [B1 B2]. destruct (B' s) as [C1 C2]. rewrite Pf in C1.
-    assert (P2 : ph (f2 s) = ph (segs y1 s)) by (apply rank_inj; lia).
-    assert (P3 : ph (f3 s) = ph (segs y1 s)) by (apply rank_inj; lia).
-    rewrite C. unfold resolve, resolve_kind. rewrite Hk. unfold resolve_groupby.
-    rewrite count_app, !count_flat by (first [apply NoDup_snapR | apply NoDup_filter, NoDup_snapU]).
-    rewrite (mem_filter_gen (fun t => in_unrot (f3 t))), mem_snapU, mem_snapR.
-    replace (Nat.ltb s nseg) with true by (symmetry; apply Nat.ltb_lt; exact Hs). cbn [andb].
-    replace (Nat.ltb b (nb (f3 s))) with true by (symmetry; apply Nat.ltb_lt; lia).
-    unfold in_unrot, in_rot. rewrite P2, P3.
-    destruct (ph (segs y1 s)); try congruence; reflexivity.
-  Qed.
 End Proofs.
 
 (* the any-order searcher of the code: one batch, groups of GOMAXPROCS = P blocks (any P, also 0) *)
 Corollary handover_exactly_once_gomaxprocs nseg P kind_of pre post r s b :
-  kind_of r <> QGroupBy ->
-  let y1 := Handover.run nseg true true one_batch (chunks P) kind_of sys_init pre in
+  let y1 := Handover.run nseg true true true one_batch (chunks P) kind_of sys_init pre in
   stage (rds y1 r) = RIdle ->
   s < nseg -> ph (segs y1 s) <> Absent -> b < nb (segs y1 s) ->
-  let y := Handover.run nseg true true one_batch (chunks P) kind_of y1 (SnapU r :: post) in
+  let y := Handover.run nseg true true true one_batch (chunks P) kind_of y1 (SnapU r :: post) in
   stage (rds y r) = RDone ->
   count_pair (s, b) (result (rds y r)) = 1.
 Proof. apply handover_exactly_once; [exact one_batch_covers|apply chunks_keeps]. Qed.
 
 (* Before fix 08e84b8 the statistics path merged a segment that was in both snapshots twice. *)
 Theorem stats_double_count_refuted :
-  exists evs, let y := Handover.run 1 false true one_batch (chunks 16) (fun _ => QStats) sys_init evs in
+  exists evs, let y := Handover.run 1 false true true one_batch (chunks 16) (fun _ => QStats) sys_init evs in
     stage (rds y 0) = RDone /\ count_pair (0, 0) (result (rds y 0)) = 2.
 Proof.
   exists [Create 0; Flush 0; Noop; AddRot 0; SnapU 0; SnapR 0; DelUnrot 0; Resolve 0].
@@ -541,7 +513,7 @@ Qed.
    and with the marking inside the loop, every block is returned once. *)
 Definition window_plan : list ev := [Create 0; Flush 0; Flush 0; Noop; AddRot 0; SnapU 0; SnapR 0; Resolve 0].
 Theorem two_pass_filter_refuted :
-  let ans ib P evs b := count_pair (0, b) (result (rds (Handover.run 1 true ib one_batch (chunks P) (fun _ => QRecords) sys_init evs) 0)) in
+  let ans ib P evs b := count_pair (0, b) (result (rds (Handover.run 1 true ib true one_batch (chunks P) (fun _ => QRecords) sys_init evs) 0)) in
   (ans false 2 window_plan 0 = 2 /\ ans false 2 window_plan 1 = 2) /\
   (ans false 4 window_plan 0 = 1 /\ ans false 4 window_plan 1 = 1) /\
   (ans true 2 window_plan 0 = 1 /\ ans true 2 window_plan 1 = 1) /\
@@ -556,28 +528,16 @@ Example two_pass_filter_across_batches :
   searcher_filter true [] [[(0,0); (0,1); (0,0); (0,1)]] = [(0,0); (0,1)].
 Proof. vm_compute. repeat split; reflexivity. Qed.
 
-(* The group-by route (first command `stats ... by ...`) of the code as it is violates the property:
+(* The group-by route (first command `stats ... by ...`) BEFORE its repair violated the property:
    (1) planned before the segment enters the rotated metadata, read after it left the unrotated info:
-       the segment's events are missing; (2) planned and read inside the hand-over window: twice. *)
-Theorem groupby_lost_refuted :
-  exists evs, let y := Handover.run 1 true true one_batch (chunks 16) (fun _ => QGroupBy) sys_init evs in
-    stage (rds y 0) = RDone /\ count_pair (0, 0) (result (rds y 0)) = 0.
-Proof.
-  exists [Create 0; Flush 0; Noop; SnapU 0; SnapR 0; AddRot 0; DelUnrot 0; Noop; Resolve 0].
-  vm_compute. split; reflexivity.
-Qed.
-Theorem groupby_doubled_refuted :
-  exists evs, let y := Handover.run 1 true true one_batch (chunks 16) (fun _ => QGroupBy) sys_init evs in
-    stage (rds y 0) = RDone /\ count_pair (0, 0) (result (rds y 0)) = 2.
-Proof.
-  exists [Create 0; Flush 0; Noop; SnapU 0; AddRot 0; SnapR 0; Resolve 0; DelUnrot 0; Noop].
-  vm_compute. split; reflexivity.
-Qed.
-(* the guard of groupby_exactly_once_guarded is satisfiable: a query over an open and a rotated segment *)
-Example groupby_guard_nonvacuous :
-  let y := Handover.run 2 true true one_batch (chunks 16) (fun _ => QGroupBy) sys_init
-             [Create 0; Flush 0; AddRot 0; DelUnrot 0; Create 1; Flush 1; SnapU 0; Flush 1; SnapR 0; Resolve 0] in
-  stage (rds y 0) = RDone /\ count_pair (0, 0) (result (rds y 0)) = 1 /\ count_pair (1, 0) (result (rds y 0)) = 1.
+       the segment's events were missing; (2) planned and read inside the hand-over window: twice.
+   The same two schedules on the repaired route give one. *)
+Definition groupby_lost_sched : list ev := [Create 0; Flush 0; Noop; SnapU 0; SnapR 0; AddRot 0; DelUnrot 0; Noop; Resolve 0].
+Definition groupby_doubled_sched : list ev := [Create 0; Flush 0; Noop; SnapU 0; AddRot 0; SnapR 0; Resolve 0; DelUnrot 0; Noop].
+Theorem groupby_unprotected_refuted :
+  let ans prot evs := (let y := Handover.run 1 true true prot one_batch (chunks 16) (fun _ => QGroupBy) sys_init evs in
+                       (stage (rds y 0), count_pair (0, 0) (result (rds y 0)))) in
+  ans false groupby_lost_sched = (RDone, 0) /\ ans false groupby_doubled_sched = (RDone, 2) /\ ans true groupby_lost_sched = (RDone, 1) /\ ans true groupby_doubled_sched = (RDone, 1).
 Proof. vm_compute. repeat split; reflexivity. Qed.
 
 (* Queries never change what is stored: the segment table after any interleaving equals the
@@ -585,22 +545,22 @@ Proof. vm_compute. repeat split; reflexivity. Qed.
 Definition is_writer_ev (e : ev) : bool :=
   match e with SnapU _ | SnapR _ | Resolve _ => false | _ => true end.
 
-Theorem readers_transparent nseg sd ib bt gp kind_of evs : forall y s,
-  segs (Handover.run nseg sd ib bt gp kind_of y evs) s
-  = segs (Handover.run nseg sd ib bt gp kind_of y (filter is_writer_ev evs)) s.
+Theorem readers_transparent nseg sd ib gbp bt gp kind_of evs : forall y s,
+  segs (Handover.run nseg sd ib gbp bt gp kind_of y evs) s
+  = segs (Handover.run nseg sd ib gbp bt gp kind_of y (filter is_writer_ev evs)) s.
 Proof.
   induction evs as [|e evs IH]; intros y s; [reflexivity|].
   cbn [filter]. destruct (is_writer_ev e) eqn:E.
   - unfold Handover.run. cbn [fold_left]. apply IH.
-  - unfold Handover.run at 1. cbn [fold_left]. fold (Handover.run nseg sd ib bt gp kind_of (Handover.step nseg sd ib bt gp kind_of y e) evs).
+  - unfold Handover.run at 1. cbn [fold_left]. fold (Handover.run nseg sd ib gbp bt gp kind_of (Handover.step nseg sd ib gbp bt gp kind_of y e) evs).
     rewrite IH.
-    assert (H : forall t, segs (Handover.step nseg sd ib bt gp kind_of y e) t = segs y t).
+    assert (H : forall t, segs (Handover.step nseg sd ib gbp bt gp kind_of y e) t = segs y t).
     { intro t. destruct e as [q|q| |q|q|r|r|r]; cbn in E; try discriminate; cbn [Handover.step];
       destruct (stage (rds y r)); reflexivity. }
     (* runs from states with pointwise equal segment tables and arbitrary reader tables agree on segs
        for writer-only event lists *)
     assert (G : forall l y1 y2, (forall t, segs y1 t = segs y2 t) -> Forall (fun e => is_writer_ev e = true) l ->
-                forall t, segs (Handover.run nseg sd ib bt gp kind_of y1 l) t = segs (Handover.run nseg sd ib bt gp kind_of y2 l) t).
+                forall t, segs (Handover.run nseg sd ib gbp bt gp kind_of y1 l) t = segs (Handover.run nseg sd ib gbp bt gp kind_of y2 l) t).
     { induction l as [|a l IHl]; intros y1 y2 Hq Hall t; [apply Hq|].
       inversion Hall as [|? ? Ha Hl]; subst. unfold Handover.run. cbn [fold_left]. apply IHl; auto.
       intro u. destruct a as [q|q| |q|q|r|r|r]; cbn in Ha; try discriminate; cbn [Handover.step]; try apply Hq.
